@@ -830,7 +830,8 @@ class _Namespaces(object):
         namespaces = {}
         for rule in filter(lambda r: r.type == r.NAMESPACE_RULE,
                            reversed(self.parentStyleSheet.cssRules)):
-            if rule.namespaceURI not in as_list(namespaces.values()):
+            if rule.namespaceURI not in as_list(namespaces.values()) and \
+               rule.prefix not in namespaces:
                 namespaces[rule.prefix] = rule.namespaceURI
         return namespaces
 
